@@ -219,4 +219,198 @@ theorem a17_text_mode_exclusion_needed :
   simp only [List.nil_append, Option.some.injEq, BlockBuf.text.injEq] at hb
   exact absurd hb (by decide)
 
+/-! ## D. the comparison of the property is an equivalence; edits compose -/
+
+section lrelEquiv
+variable {β γ : Type}
+
+theorem LRel.a17_symm {R : β → γ → Prop} {R' : γ → β → Prop} (hR : ∀ a b, R a b → R' b a) {l : List β} {m : List γ}
+    (h : LRel R l m) : LRel R' m l := by
+  induction h with
+  | nil => exact .nil
+  | cons h1 _ ih => exact .cons (hR _ _ h1) ih
+
+theorem LRel.a17_trans {R : β → β → Prop} (hR : ∀ a b c, R a b → R b c → R a c) {x y z : List β}
+    (h1 : LRel R x y) (h2 : LRel R y z) : LRel R x z :=
+  (LRel.comp h1 h2).mono (fun a c ⟨b, hab, hbc⟩ => hR a b c hab hbc)
+
+theorem OptRel.a17_symm {A : β → γ → Prop} {A' : γ → β → Prop} (hA : ∀ a b, A a b → A' b a) {a : Option β} {b : Option γ}
+    (h : OptRel A a b) : OptRel A' b a := by
+  cases a <;> cases b <;> simp only [OptRel] at h ⊢
+  exact hA _ _ h
+
+theorem OptRel.a17_trans {A : β → β → Prop} (hA : ∀ a b c, A a b → A b c → A a c) {a b c : Option β}
+    (h1 : OptRel A a b) (h2 : OptRel A b c) : OptRel A a c := by
+  cases a <;> cases b <;> cases c <;> simp only [OptRel] at h1 h2 ⊢
+  exact hA _ _ _ h1 h2
+
+theorem OptRel.a17_mono {A A' : β → γ → Prop} (hA : ∀ a b, A a b → A' a b) {a : Option β} {b : Option γ}
+    (h : OptRel A a b) : OptRel A' a b := by
+  cases a <;> cases b <;> simp only [OptRel] at h ⊢
+  exact hA _ _ h
+
+end lrelEquiv
+
+theorem LooseContent.a17_symm {ws : Char → Bool} {a b : Content} (h : LooseContent ws a b) : LooseContent ws b a := by
+  cases a <;> cases b <;> simp only [LooseContent] at h ⊢
+  · exact ⟨h.1.symm, h.2.symm⟩
+  · exact h.symm
+
+theorem LooseContent.a17_trans {ws : Char → Bool} {a b c : Content} (h1 : LooseContent ws a b) (h2 : LooseContent ws b c) :
+    LooseContent ws a c := by
+  cases a <;> cases b <;> cases c <;> simp only [LooseContent] at h1 h2 ⊢
+  · exact ⟨h1.1.trans h2.1, h1.2.trans h2.2⟩
+  · exact h1.trans h2
+
+theorem LooseSection.a17_symm {ws : Char → Bool} {a b : Section} (h : LooseSection ws a b) : LooseSection ws b a :=
+  ⟨h.1.symm, LRel.a17_symm (R := LooseContent ws) (R' := LooseContent ws) (fun _ _ => LooseContent.a17_symm) h.2⟩
+
+theorem LooseSection.a17_trans {ws : Char → Bool} {a b c : Section} (h1 : LooseSection ws a b) (h2 : LooseSection ws b c) :
+    LooseSection ws a c :=
+  ⟨h1.1.trans h2.1, LRel.a17_trans (R := LooseContent ws) (fun _ _ _ => LooseContent.a17_trans) h1.2 h2.2⟩
+
+/-- a text with every `\r\n` read as `\n` (how the front-matter YAML text is compared: the YAML
+    parser is outside the model, and YAML reads both line ends alike) -/
+def a17StripCR : List Char → List Char
+  | [] => []
+  | c :: t => if c = '\r' ∧ t.head? = some '\n' then a17StripCR t else c :: a17StripCR t
+
+theorem a17_crlf_head (t : List Char) : (crlf t).head? ≠ some '\n' := by
+  cases t with
+  | nil => simp
+  | cons c t =>
+    simp only [crlf, crlfAux]
+    split <;> rename_i h
+    · simp
+    · intro hh
+      simp only [List.cons_append, List.nil_append, List.head?_cons, Option.some.injEq] at hh
+      exact h ⟨hh, trivial⟩
+
+theorem a17_strip_crlf (y : List Char) : a17StripCR (crlf y) = a17StripCR y := by
+  induction y using crlf_induct with
+  | nil => rfl
+  | lf t ih =>
+    rw [crlf_lf]
+    simp [a17StripCR, ih]
+  | crlf t ih =>
+    rw [crlf_crlf]
+    simp [a17StripCR, ih]
+  | other c t h1 h2 ih =>
+    rw [crlf_other c t h1 h2]
+    have h3 : ¬ (c = '\r' ∧ (crlf t).head? = some '\n') := fun h => a17_crlf_head t h.2
+    simp only [a17StripCR, h2, h3, if_false, ih]
+
+theorem a17_fromStr_text (s : List Char) (o : Nat) : (Text.fromStr s o).text = s := by
+  unfold Text.fromStr
+  rw [Text.text_appendStr]
+  simp [Text.empty, Text.text]
+
+/-- front-matter texts that read the same -/
+def A17FmSame (t' t : Text) : Prop := a17StripCR t'.text = a17StripCR t.text
+
+theorem a17_fmSim_same {uws : Char → Bool} {t' t : Text} (h : FmSim uws t' t) : A17FmSame t' t := by
+  unfold A17FmSame
+  rcases h with h | ⟨y, o', o, rfl, rfl⟩
+  · rw [h.text]
+  · rw [a17_fromStr_text, a17_fromStr_text, a17_strip_crlf]
+
+variable {α : Type} [Arith α]
+
+/-- what a diagnostic is compared by: severity, stage, kind, number of labels (label positions
+    are source positions and shift under every edit) -/
+def a17Sig (d : Diag) : Sev × Stage × String × Nat := (d.sev, d.stage, d.kind, d.labels.length)
+
+/-- **The same recipe up to white space in step text**: sections one to one with equal names, as
+    many contents, paragraphs equal, steps with equal numbers and items equal up to white space in
+    text runs (component items with the same table indices); the ingredient, cookware, timer and
+    inline-quantity tables and the `>>` metadata map EQUAL; front matter on both sides or on
+    neither, the YAML text equal up to the spelling of line ends. -/
+structure SameCol (ws : Char → Bool) (c' c : Col α) : Prop where
+  sections : LRel (LooseSection ws) c'.sections c.sections
+  ingredients : c'.ingredients.toList = c.ingredients.toList
+  cookware : c'.cookware.toList = c.cookware.toList
+  timers : c'.timers.toList = c.timers.toList
+  inlineQ : c'.inlineQ = c.inlineQ
+  metaMap : c'.metaMap = c.metaMap
+  frontMatter : OptRel A17FmSame c'.frontMatter c.frontMatter
+
+/-- **The comparison the property states** for two results of `parse`: a recipe on both sides or
+    on neither, the recipes the same up to white space in step text, the reports with diagnostics
+    of the same severity, stage and kind in the same order (hence an error in both or in neither:
+    the same validity). -/
+structure SameRecipe (ws : Char → Bool) (r' r : AnalysisResult α) : Prop where
+  output : OptRel (SameCol ws) r'.output r.output
+  diags : r'.diags.toList.map a17Sig = r.diags.toList.map a17Sig
+
+theorem SameCol.a17_refl (ws : Char → Bool) (c : Col α) : SameCol ws c c :=
+  ⟨LRel.refl_of (LooseSection.refl ws) _, rfl, rfl, rfl, rfl, rfl, OptRel.refl_of (A := A17FmSame) (fun _ => rfl) _⟩
+
+theorem SameCol.a17_symm {ws : Char → Bool} {a b : Col α} (h : SameCol ws a b) : SameCol ws b a :=
+  ⟨LRel.a17_symm (R := LooseSection ws) (R' := LooseSection ws) (fun _ _ => LooseSection.a17_symm) h.sections, h.ingredients.symm, h.cookware.symm, h.timers.symm,
+   h.inlineQ.symm, h.metaMap.symm, OptRel.a17_symm (A := A17FmSame) (A' := A17FmSame) (fun _ _ e => Eq.symm e) h.frontMatter⟩
+
+theorem SameCol.a17_trans {ws : Char → Bool} {a b c : Col α} (h1 : SameCol ws a b) (h2 : SameCol ws b c) : SameCol ws a c :=
+  ⟨LRel.a17_trans (R := LooseSection ws) (fun _ _ _ => LooseSection.a17_trans) h1.sections h2.sections, h1.ingredients.trans h2.ingredients,
+   h1.cookware.trans h2.cookware, h1.timers.trans h2.timers, h1.inlineQ.trans h2.inlineQ, h1.metaMap.trans h2.metaMap,
+   OptRel.a17_trans (A := A17FmSame) (fun _ _ _ e1 e2 => Eq.trans e1 e2) h1.frontMatter h2.frontMatter⟩
+
+theorem SameRecipe.a17_refl (ws : Char → Bool) (r : AnalysisResult α) : SameRecipe ws r r :=
+  ⟨OptRel.refl_of (A := SameCol ws) (SameCol.a17_refl ws) _, rfl⟩
+
+theorem SameRecipe.a17_symm {ws : Char → Bool} {a b : AnalysisResult α} (h : SameRecipe ws a b) : SameRecipe ws b a :=
+  ⟨OptRel.a17_symm (A := SameCol ws) (A' := SameCol ws) (fun _ _ => SameCol.a17_symm) h.output, h.diags.symm⟩
+
+theorem SameRecipe.a17_trans {ws : Char → Bool} {a b c : AnalysisResult α} (h1 : SameRecipe ws a b) (h2 : SameRecipe ws b c) :
+    SameRecipe ws a c :=
+  ⟨OptRel.a17_trans (A := SameCol ws) (fun _ _ _ => SameCol.a17_trans) h1.output h2.output, h1.diags.trans h2.diags⟩
+
+/-- the same validity: a recipe on both sides or on neither, an error-severity diagnostic in both
+    reports or in neither, as many diagnostics -/
+theorem SameRecipe.a17_valid {ws : Char → Bool} {a b : AnalysisResult α} (h : SameRecipe ws a b) :
+    a.output.isSome = b.output.isSome ∧
+    a.diags.toList.any (fun d => d.sev == .error) = b.diags.toList.any (fun d => d.sev == .error) ∧
+    a.diags.size = b.diags.size := by
+  refine ⟨?_, ?_, ?_⟩
+  · have := h.output.isNone
+    cases h1 : a.output <;> cases h2 : b.output <;> simp [h1, h2] at this ⊢
+  · have e : ∀ l : List Diag, l.any (fun d => d.sev == .error) = (l.map a17Sig).any (fun p => p.1 == .error) := by
+      intro l; induction l with
+      | nil => rfl
+      | cons d l ih => simp [a17Sig, ih]
+    rw [e, e, h.diags]
+  · have := congrArg List.length h.diags
+    simpa using this
+
+/-- every strict result implies the comparison of the property -/
+theorem a17_colSim_same {uws : Char → Bool} (ws : Char → Bool) {c' c : Col α} (h : ColSim uws c' c) : SameCol ws c' c :=
+  ⟨by rw [h.sections]; exact LRel.refl_of (LooseSection.refl ws) _, by rw [h.ingredients], by rw [h.cookware],
+   by rw [h.timers], h.inlineQ, h.metaMap, h.frontMatter.a17_mono (fun _ _ => a17_fmSim_same)⟩
+
+theorem a17_resSim_same {uws : Char → Bool} (ws : Char → Bool) {r' r : AnalysisResult α} (h : ResSim uws r' r) :
+    SameRecipe ws r' r :=
+  ⟨h.output.a17_mono (fun _ _ => a17_colSim_same ws),
+   h.diags.map_eq _ _ (fun a b hab => by obtain ⟨h1, h2, h3, h4⟩ := hab; simp only [a17Sig, h1, h2, h3, h4])⟩
+
+/-- **Any finite sequence of edits.**  If every step of a sequence of sources `s 0, s 1, …, s n`
+    preserves the recipe (in the sense of the property), so does the whole sequence. -/
+theorem a17_edits_compose (ws : Char → Bool) (env : Env) (s : Nat → Str) (n : Nat)
+    (h : ∀ i, i < n → SameRecipe ws (parseRecipe (α := α) env (s (i + 1))) (parseRecipe (α := α) env (s i))) :
+    SameRecipe ws (parseRecipe (α := α) env (s n)) (parseRecipe (α := α) env (s 0)) := by
+  induction n with
+  | zero => exact SameRecipe.a17_refl ws _
+  | succ n ih => exact (h n (Nat.lt_succ_self n)).a17_trans (ih (fun i hi => h i (Nat.lt_succ_of_lt hi)))
+
+/-- the insertion theorem for well-formed documents (`trail_recipe_doc`) in the vocabulary of the
+    property -/
+theorem a17_insertion_same (env : Env) (ws : Char → Bool) (pre' pre : List Tok) (doc' doc : List (DocItem × List Tok))
+    (h' : DocWF α env pre' doc') (h : DocWF α env pre doc)
+    (hins : LRel (ItemIns ws) (doc'.map (·.1)) (doc.map (·.1))) :
+    SameRecipe ws (parseRecipe (α := α) env (render (pre' ++ docSpec doc')))
+      (parseRecipe (α := α) env (render (pre ++ docSpec doc))) := by
+  obtain ⟨c', c, e', e, hs, hi, hc, ht, hm, hq, hf, hd⟩ := trail_recipe_doc (α := α) env ws pre' pre doc' doc h' h hins
+  rw [e', e]
+  refine ⟨?_, hd⟩
+  show SameCol ws c' c
+  exact ⟨hs, hi, hc, ht, hq, hm, by rw [hf]; exact OptRel.refl_of (A := A17FmSame) (fun _ => rfl) _⟩
+
 end Cook
